@@ -377,12 +377,17 @@ def pyStrIndex (s sub : PV) : RV :=
 
 /-! ## subscripts -/
 
+/-- first position of `x` in a list (by `==`). -/
+def findIdxEq (x : PV) : List PV → Nat → Option Nat
+  | [], _ => Option.none
+  | y :: ys, i => if PV.eqb y x then some i else findIdxEq x ys (i + 1)
+
 /-- index normalisation for `seq[i]` (`IndexError` outside `-n … n-1`). -/
 def normIndex (n : Nat) (i : Int) : Option Nat :=
   let j := if i < 0 then i + n else i
   if 0 ≤ j ∧ j < n then some j.toNat else Option.none
 
-def pyIndex (v i : PV) : RV :=
+def pyIndexSeq (v i : PV) : RV :=
   match i.asInt? with
   | Option.none => .error .typeError
   | some i =>
@@ -400,6 +405,14 @@ def pyIndex (v i : PV) : RV :=
                 | some j => .ok (l.getD j .none)
                 | Option.none => .error .indexError
     | _ => .error .typeError
+
+/-- `v[i]`: a dict looks the key up (`KeyError` is `PyErr.other`), a sequence is indexed. -/
+def pyIndex (v i : PV) : RV :=
+  match v with
+  | .dict ks vs => match findIdxEq i ks 0 with
+                   | some j => .ok (vs.getD j .none)
+                   | Option.none => .error .other
+  | _ => pyIndexSeq v i
 
 /-- an optional slice bound: `None` or an int. -/
 def boundOr (v : PV) (dflt : Int) : R Int :=
@@ -440,7 +453,7 @@ def pyReverse (v : PV) : RV :=
   | _ => .error .typeError
 
 /-- `v[i] = x` on a list, as a new list. -/
-def pySetItem (v i x : PV) : RV :=
+def pySetItemSeq (v i x : PV) : RV :=
   match v, i.asInt? with
   | .list l, some i => match normIndex l.length i with
                        | some j => .ok (.list (l.set j x))
@@ -450,6 +463,14 @@ def pySetItem (v i x : PV) : RV :=
                       | Option.none, _ => .error .indexError
                       | _, Option.none => .error .typeError
   | _, _ => .error .typeError
+
+/-- `v[i] = x`: a dict gets / updates the key (an existing key keeps its position), a sequence is updated. -/
+def pySetItem (v i x : PV) : RV :=
+  match v with
+  | .dict ks vs => match findIdxEq i ks 0 with
+                   | some j => .ok (.dict ks (vs.set j x))
+                   | Option.none => .ok (.dict (ks ++ [i]) (vs ++ [x]))
+  | _ => pySetItemSeq v i x
 
 /-- `v.insert(i, x)` on a list, as a new list (the position clamps like a slice bound). -/
 def pyInsert (v i x : PV) : RV :=
@@ -493,11 +514,6 @@ def pyIsNone (v : PV) : Bool :=
   match v with
   | .none => true
   | _ => false
-
-/-- first position of `x` in a list (by `==`). -/
-def findIdxEq (x : PV) : List PV → Nat → Option Nat
-  | [], _ => Option.none
-  | y :: ys, i => if PV.eqb y x then some i else findIdxEq x ys (i + 1)
 
 /-- `container.index(x)`: lists and tuples by `==`, strings by sub-string search (`ValueError` when absent). -/
 def pyIndexOf (c x : PV) : RV :=
@@ -548,9 +564,15 @@ def liftCmp (c : PV → PV → R Bool) (a b : PV) : RV := (c a b).map .bool
 
 /-- `a - b`, `a + b`, `a * b` with NumPy broadcasting when an operand is an array. -/
 def npSub (a b : PV) : RV := arrBroadcast pySub a b
+/-- `+` on one item of an array: a row of a two-dimensional array broadcasts once more. -/
+def addItem (x y : PV) : RV :=
+  match x with
+  | .arr _ => arrBroadcast pyAdd x y
+  | _ => pyAdd x y
+
 def npAdd (a b : PV) : RV :=
   match a, b with
-  | .arr _, _ => arrBroadcast pyAdd a b
+  | .arr _, _ => arrBroadcast addItem a b
   | _, .arr _ => arrBroadcast pyAdd a b
   | _, _ => pyAdd a b
 def npMul (a b : PV) : RV :=
@@ -761,5 +783,65 @@ def pyDelItem (v i : PV) : RV :=
                        | some j => .ok (.list (l.eraseIdx j))
                        | Option.none => .error .indexError
   | _, _ => .error .typeError
+
+/-! ## dicts (insertion ordered) and the remaining NumPy idioms of dsw/graphized.py -/
+
+def pyDictItems (d : PV) : RV :=
+  match d with
+  | .dict ks vs => .ok (.list (zipPairs ks vs))
+  | _ => .error .other
+
+def pyDictKeys (d : PV) : RV :=
+  match d with
+  | .dict ks _ => .ok (.list ks)
+  | _ => .error .other
+
+def pyDictValues (d : PV) : RV :=
+  match d with
+  | .dict _ vs => .ok (.list vs)
+  | _ => .error .other
+
+/-- `a.tolist()` (one or two dimensions). -/
+def npToList (a : PV) : RV :=
+  match a with
+  | .arr l => .ok (.list (l.map fun x => match x with | .arr r => .list r | y => y))
+  | _ => .error .other
+
+/-- `a.astype(bool)` / `a.astype(int)` elementwise (one or two dimensions). -/
+def astypeItem (toBool : Bool) (x : PV) : PV :=
+  match x.asInt? with
+  | some i => if toBool then .bool (i != 0) else .int i
+  | Option.none => x
+
+def npAstype (toBool : Bool) (a : PV) : RV :=
+  match a with
+  | .arr l => .ok (.arr (l.map fun x => match x with
+                                        | .arr r => .arr (r.map (astypeItem toBool))
+                                        | y => astypeItem toBool y))
+  | x => .ok (astypeItem toBool x)
+
+def npAstypeBool (a : PV) : RV := npAstype true a
+def npAstypeInt (a : PV) : RV := npAstype false a
+
+/-- `numpy.sum(a, axis=1)` of a two-dimensional integer/boolean array. -/
+def npSumAxis1 (a : PV) : RV :=
+  match a with
+  | .arr rows => (mapM' npSum rows).map .arr
+  | _ => .error .other
+
+/-- `a[mask]` with a boolean mask of the same length. -/
+def maskSelect : List PV → List PV → R (List PV)
+  | [], [] => .ok []
+  | x :: xs, m :: ms =>
+    match maskSelect xs ms with
+    | .error e => .error e
+    | .ok r => .ok (if m.truthy then x :: r else r)
+  | _, _ => .error .indexError
+
+def npMaskIndex (a m : PV) : RV :=
+  match a, m with
+  | .arr xs, .arr ms => (maskSelect xs ms).map .arr
+  | _, _ => .error .other
+
 
 end Dsw.Py
